@@ -176,3 +176,32 @@ def run(prog, chk):
     fm = prog.func("SFTPAttributes._from_msg")
     t = unparse(fm.node)
     chk.ob("R2.decode-into-fresh-object", "_from_msg", "attr = cls()" in t and "attr._unpack(msg)" in t, fm.loc, "decodes into a new object")
+    # R3: who may write the value fields.  The object that was decoded (or filled by the application) is what gets encoded:
+    # only the constructor, the decoder and - for the flags word alone - the encoder assign to its fields; the renderers
+    # (__str__, __repr__, _debug_str, asbytes) read.  A renderer that "defaults" an absent field turns absent into present
+    # on the next encode (the server's directory listing renders an entry right before packing it).
+    VALUE = ("st_size", "st_uid", "st_gid", "st_mode", "st_atime", "st_mtime", "attr", "_flags")
+    allowed = {"__init__": set(VALUE), "_unpack": set(VALUE), "_pack": {"_flags"}}
+    cls = prog.cls("SFTPAttributes")
+    nw = 0
+    for name, m in sorted(cls.methods.items()):
+        wrote = set()
+        for x in walk_no_defs(m.node):
+            tgts = []
+            if isinstance(x, ast.Assign):
+                tgts = x.targets
+            elif isinstance(x, (ast.AugAssign, ast.AnnAssign)):
+                tgts = [x.target]
+            elif isinstance(x, ast.Delete):
+                tgts = x.targets
+            for t_ in tgts:
+                for e in (t_.elts if isinstance(t_, (ast.Tuple, ast.List)) else [t_]):
+                    base = e.value if isinstance(e, ast.Subscript) else e
+                    if isinstance(base, ast.Attribute) and isinstance(base.value, ast.Name) and base.value.id == "self" and base.attr in VALUE:
+                        wrote.add(base.attr)
+        extra = wrote - allowed.get(name, set())
+        if wrote:
+            nw += 1
+        chk.ob("R3.value-fields-written-only-by-constructor-and-decoder", "SFTPAttributes.%s" % name, not extra, m.loc,
+               "writes %s%s" % (sorted(wrote) or "nothing", "" if not extra else " - %s must not be assigned here" % sorted(extra)))
+    chk.floor("R3", "methods of SFTPAttributes that write value fields", nw, 3)
